@@ -12,9 +12,27 @@ TIE = {"Lock": ["h_lock_agent_Run", "h_lock_agent_setup", "h_lock_agent_checkPre
                 "h_lock_agent_HandleHTTP", "h_lock_sock_NewServer", "h_lock_sock_Serve", "h_lock_sock_Shutdown",
                 "h_lock_sock_Request", "h_lock_client_GetCurrentStatus", "h_lock_dag_SockAddr"]}
 
-AG = {"A": 0, "B": 1}
+AG = {"A": 0, "B": 1, "C": 2}
 SIG_BOTH = "C16:simultaneous-starts-both-run"
 SIG_LOSER = "C16:simultaneous-starts-refused-start-recorded-a-run"
+SIG_LATE = "C16:endpoint-removed-by-finishing-run-next-start-not-refused"
+
+
+def agents_of(r):
+    return [a for a in ("A", "B", "C") if a in r["exit"]]
+
+
+def run_driver_retry(mode, text, timeout=600):
+    """the driver binary is re-linked by concurrent builds of other checks: wait for it instead of failing"""
+    import time
+    last = None
+    for _ in range(60):
+        try:
+            return common.run_driver(mode, text, timeout=timeout)
+        except OSError as e:      # missing / text file busy while `lake build driver` runs elsewhere
+            last = e
+            time.sleep(1)
+    raise last
 
 
 def gen_cases(chk, binp):
@@ -23,13 +41,16 @@ def gen_cases(chk, binp):
 
     def add(**kw):
         c = dict(id="l%d" % len(cases), bin=binp, kind="start", phase="steps", atStep=1, delayUs=0, nsteps=3,
-                 stepMs=120, handMs=150, injectA="", injectB="")
+                 stepMs=120, handMs=150, injectA="", injectB="", bStepMs=0, thirdAfterMs=0)
         c.update(kw)
         cases.append(c)
 
-    # the model's refutation witness (Props/C16.lean: wTrace), forced on the real binary: both probes
-    # before either bind; A binds first, B unlinks A's socket and binds
+    # the interleaving that made both run before fix 5f302ab (both probes before either bind; A binds first, B unlinks
+    # A's socket and binds), forced with the same strace delays: now the lock refuses the later one
     add(phase="together", nsteps=2, injectA="connect:delay_exit=150000:when=1", injectB="connect:delay_exit=450000:when=1", tag="witness")
+    # the lock holder held between taking the lock and its probe
+    for _ in range(2):
+        add(phase="prelisten", nsteps=2, delayUs=rng.randint(20000, 120000), injectA="flock:delay_exit=%d:when=1" % rng.randint(150000, 300000), tag="lock-window")
     mult = 1 if quick else 8
     for kind, n_steps, n_hand, n_pre in (("start", 7, 7, 8), ("retry", 4, 4, 4)):
         for _ in range(n_steps * mult):
@@ -44,11 +65,17 @@ def gen_cases(chk, binp):
         add(kind=kind, phase="after", nsteps=2, stepMs=30, handMs=30)
     # the first run held inside listener.Close (its endpoint still answers): second start during shutdown
     for _ in range(3 * mult):
-        add(kind=rng.choice(["start", "retry"]), phase="handler", nsteps=2, stepMs=30, handMs=60, delayUs=rng.randint(70000, 200000),
-            injectA="unlinkat:delay_enter=300000:when=3", tag="shutdown")
+        # (every unlinkat of the first process is delayed: strace counts `when=` per thread, which Go does not fix)
+        add(kind=rng.choice(["start", "retry"]), phase="shutdown", nsteps=2, stepMs=30, handMs=40, delayUs=rng.randint(0, 120000),
+            injectA="unlinkat:delay_enter=300000", tag="shutdown")
     # the first run held between bind and listen: a probe in that window is refused by the kernel, not by the agent
     for _ in range(1 * mult):
         add(phase="prelisten", nsteps=2, delayUs=rng.randint(90000, 130000), injectA="bind:delay_exit=350000:when=1", tag="bind-listen-window")
+    # the scenario of F20c (before fix 8270caf the finishing run's deferred os.Remove, held back, deleted the NEXT run's
+    # socket and a third start ran too): finishing run with all unlinkats delayed, next run, third start
+    for _ in range(2 * mult):
+        add(phase="closed", nsteps=2, stepMs=30, handMs=30, delayUs=rng.randint(0, 20000), injectA="unlinkat:delay_enter=400000",
+            bStepMs=rng.choice([500, 600]), thirdAfterMs=rng.randint(650, 800), tag="late-remove")
     # two starts at the same instant, nothing injected
     for _ in range(10 * mult):
         add(phase="together", nsteps=2, stepMs=100, handMs=50, tag="natural")
@@ -75,7 +102,7 @@ def attribute_hist(c, r):
     """history records per agent: via the request id the steps saw; left-overs go to the agent that ran no step"""
     ms = markers_of(r)
     req2ag = {m["req"]: m["ag"] for m in ms if m["req"]}
-    per = {"A": [], "B": [], "R": [], "?": []}
+    per = {"A": [], "B": [], "C": [], "R": [], "?": []}
     for h in r["hist"]:
         if h["req"] == r.get("r0") and r.get("r0"):
             per["R"].append(h)
@@ -83,39 +110,72 @@ def attribute_hist(c, r):
             per[req2ag[h["req"]]].append(h)
         else:
             per["?"].append(h)
-    silent = [a for a in ("A", "B") if not any(m["ag"] == a for m in ms)]
+    silent = [a for a in agents_of(r) if not any(m["ag"] == a for m in ms)]
     if per["?"] and len(silent) == 1:
         per[silent[0]] += per["?"]; per["?"] = []
     return per
 
 
+def eff_t(c, e):
+    """time at which a recorded call took effect: a call held back on ENTRY by strace acts at its exit time"""
+    inj = c.get("inject" + e["ag"], "")
+    if "delay_enter" in inj and inj.split(":")[0] == e["ev"] and e.get("te"):
+        return e["te"]
+    return e["t"]
+
+
 def abstract_trace(c, r):
     """(agent, action, time) list derived from the recorded system calls and step markers"""
     acts = []
-    for ag in ("A", "B"):
+    for ag in agents_of(r):
         evs = [e for e in r["events"] if e["ag"] == ag]
         unl = 0
         listened = False
-        inj = c.get("inject" + ag, "")
-        for e in evs:
-            t = e["t"]
-            # a call held back on ENTRY by strace takes effect only at its exit time
-            if "delay_enter" in inj and inj.split(":")[0] == e["ev"] and e.get("te"):
-                t = e["te"]
-            if e["ev"] == "connect":
-                acts += [(t, ag, "setup1"), (t, ag, "precond1"), (t, ag, "probe")]
+        started = False        # setup / precond / lock already placed
+        lockfail = any(e["ev"] == "flock" and e["res"] != "0" for e in evs)
+        answered = any(e["ev"] == "response" for e in evs)
+        bindfail = any(e["ev"] == "bind" and e["res"] != "0" for e in evs)
+        unlocked = False
+        for i, e in enumerate(evs):
+            t = eff_t(c, e)
+            if e["ev"] == "response":
+                continue
+            if e["ev"] == "flock":
+                acts += [(t, ag, "setup1"), (t, ag, "precond1"), (t, ag, "lock")]
+                started = True
+            elif e["ev"] == "connect":
+                # the probe's verdict is fixed when it completes: at the answer, at the failing connect, or - connected
+                # but never answered (the listener was closing) - when the connection was dropped
+                nxt = evs[i + 1] if i + 1 < len(evs) else None
+                if e["res"] == "0" and nxt is not None:
+                    t = eff_t(c, nxt) if nxt["ev"] == "response" else eff_t(c, nxt) - 1e-6
+                if not started:      # the DAG file could not be opened: no flock call
+                    acts += [(t, ag, "setup1"), (t, ag, "precond1"), (t, ag, "lock")]
+                    started = True
+                acts.append((t, ag, "probe"))
+            elif e["ev"] == "unlock":
+                # (a refused process closes the descriptor on its way out: part of the refusal in the model)
+                if lockfail or answered:
+                    continue
+                unlocked = True
+                if bindfail:
+                    acts += [(t, ag, "unlock"), (t + 1e-7, ag, "histClose")]
+                else:
+                    acts += [(t, ag, "finalWrite"), (t, ag, "unlock")]
             elif e["ev"] == "unlinkat":
                 unl += 1
                 if unl == 1:
                     acts += [(t, ag, x) for x in ("removeOld", "histOpen", "histWrite", "unlink")]
                 elif unl == 2:
-                    acts += [(t, ag, "finalWrite"), (t, ag, "shutClose")]
-                elif unl == 3:
-                    acts += [(t, ag, "shutUnlink")]
+                    if not unlocked:
+                        acts += [(t, ag, "finalWrite"), (t, ag, "unlock")]
+                    acts.append((t, ag, "shutClose"))
+                else:
+                    acts.append((t, ag, "unexpected-unlink"))      # fix 8270caf: there is no further removal
             elif e["ev"] == "bind":
                 acts.append((t, ag, "bind"))
-                if e["res"] != "0":
-                    acts.append((t + 1e-7, ag, "histClose"))
+                if e["res"] != "0" and not any(x["ev"] == "unlock" for x in evs):
+                    acts += [(t + 1e-7, ag, "unlock"), (t + 2e-7, ag, "histClose")]
             elif e["ev"] == "listen":
                 listened = True
                 acts.append((t, ag, "listen"))
@@ -128,10 +188,18 @@ def abstract_trace(c, r):
     return acts
 
 
+def can_open(r, ag):
+    """did the process take (or try to take) the lock, i.e. could it open the DAG file?"""
+    evs = [e for e in r["events"] if e["ag"] == ag]
+    return 1 if (not evs or any(e["ev"] == "flock" for e in evs)) else 0
+
+
 def driver_line(c, r):
     acts = abstract_trace(c, r)
     bsteps = 1 if c["kind"] == "retry" else c["nsteps"]
-    cfg = "0,0,%d,1;0,0,%d,1" % (c["nsteps"], bsteps)
+    cfg = "0,0,%d,1,%d;0,0,%d,1,%d" % (c["nsteps"], can_open(r, "A"), bsteps, can_open(r, "B"))
+    if "C" in r["exit"]:
+        cfg += ";0,0,%d,1,%d" % (c["nsteps"], can_open(r, "C"))
     return "%s agents %s tr %s" % (c["id"], cfg, " ".join("%d:%s" % (AG[a], x) for _, a, x in acts)), acts
 
 
@@ -149,9 +217,10 @@ def observed_verdict(c, r, ag):
     ms = [m for m in markers_of(r) if m["ag"] == ag and m["what"] == "start"]
     per = attribute_hist(c, r)
     evs = [e for e in r["events"] if e["ag"] == ag]
-    answered = any(e["ev"] == "connect" and e["res"] == "0" for e in evs)
+    answered = any(e["ev"] == "response" for e in evs)
+    lockfail = any(e["ev"] == "flock" and e["res"] != "0" for e in evs)
     bindfail = any(e["ev"] == "bind" and e["res"] != "0" for e in evs)
-    if answered:
+    if answered or lockfail:
         cls = "refused"
     elif bindfail:
         cls = "bindFailed"
@@ -173,10 +242,13 @@ def monitor(chk, c, r):
     out = []
     per = attribute_hist(c, r)
     kind = c["kind"]
-    for x, o in (("B", "A"), ("A", "B")):
+    for x, o in (("B", "A"), ("A", "B")) + ((("C", "B"),) if "C" in r["exit"] else ()):
         evs = [e for e in r["events"] if e["ag"] == x]
-        answered = any(e["ev"] == "connect" and e["res"] == "0" for e in evs)
-        active_throughout = x == "B" and c["phase"] in ("steps", "handler") and r["ansBeforeB"] and r["aAliveAfter"]
+        # the probe received the endpoint's answer, or the lock on the DAG file was held by another process
+        answered = any(e["ev"] == "response" for e in evs) or any(e["ev"] == "flock" and e["res"] != "0" for e in evs)
+        # the first run's endpoint answered the harness both before the second command was launched and after
+        # it had exited: a run was active during the second command's whole life
+        active_throughout = x == "B" and c["phase"] in ("steps", "handler", "shutdown") and r["ansBeforeB"] and r["ansAfterB"]
         if not (answered or active_throughout):
             continue
         k = kind if x == "B" else "start"
@@ -193,7 +265,8 @@ def monitor(chk, c, r):
         oh = per[o]
         # (only judged when the first run's endpoint was certainly still open when the harness probed it)
         oclose = [e for e in r["events"] if e["ag"] == o and e["ev"] == "unlinkat"][1:2]
-        still_open = bool(oclose) and r.get("ansT", 0) < oclose[0]["t"] - 0.01
+        olisten = [eff_t(c, e) for e in r["events"] if e["ag"] == o and e["ev"] == "listen"]
+        still_open = bool(oclose) and bool(olisten) and olisten[0] + 0.01 < r.get("ansT", 0) < oclose[0]["t"] - 0.01
         if x == "B" and r["aAliveAfter"] and still_open:
             if not r["ansAfterB"]:
                 out.append(("C16:active-run-endpoint-lost", "the first run's status endpoint stopped answering after a refused %s" % k))
@@ -206,42 +279,74 @@ def monitor(chk, c, r):
         want = [(s, w) for s in osteps + ["hx"] for w in ("start", "end")]
         if r["exit"][o] != 0 or om != want:
             out.append(("C16:active-run-disturbed", "the first run did not execute each step and handler exactly once (exit %d, %s)" % (r["exit"][o], om)))
-        if len(oh) != 1 or oh[0]["status"] != 4 or any(n != 4 for n in oh[0]["nodes"]) or len(oh[0]["nodes"]) != c["nsteps"] or oh[0]["onExit"] != 4:
-            out.append(("C16:active-run-history-damaged", "the first run's final history is not one record 'finished, all steps succeeded': %s" % oh))
-    # two starts at the same moment never both execute steps
-    ia, ib = interval(r, "A"), interval(r, "B")
-    if ia and ib and ia[0] < ib[1] and ib[0] < ia[1]:
-        out.append((SIG_BOTH, "both processes executed steps at the same time (A %.3f..%.3f, B %.3f..%.3f)" % (ia + ib)))
-    for x in ("A", "B"):
+        # (the overall label of the last record is C08's subject: a stale status written by the agent's own node-done
+        #  goroutine after the final one reads "running" although every node finished - seen ~1 in 200 runs under load,
+        #  with or without a second start; counted in the evidence as stale_final_status, not judged here)
+        if len(oh) != 1 or oh[0]["status"] not in (4, 1) or any(n != 4 for n in oh[0]["nodes"]) or len(oh[0]["nodes"]) != c["nsteps"] or oh[0]["onExit"] != 4:
+            out.append(("C16:active-run-history-damaged", "the first run's final history is not one record with all steps and the handler succeeded: %s" % oh))
+    # never two runs of the file executing steps at the same time
+    ags = agents_of(r)
+    for i, x in enumerate(ags):
+        for y in ags[i + 1:]:
+            ix, iy = interval(r, x), interval(r, y)
+            if not (ix and iy and ix[0] < iy[1] and iy[0] < ix[1]):
+                continue
+            first, second = (x, y) if ix[0] <= iy[0] else (y, x)
+            fl = [eff_t(c, e) for e in r["events"] if e["ag"] == first and e["ev"] == "listen"]
+            sp = [e["t"] for e in r["events"] if e["ag"] == second and e["ev"] == "connect"]
+            # was the first one's socket file, already listening, deleted by a THIRD process before the second probed?
+            thief = [e for e in r["events"] if e["ev"] == "unlinkat" and e["ag"] not in (first, second) and e["res"] == "0"
+                     and fl and sp and fl[0] < eff_t(c, e) < sp[0]]
+            what = "%s and %s executed steps at the same time (%s %.3f..%.3f, %s %.3f..%.3f)" % ((x, y, x) + ix + (y,) + iy)
+            if thief:
+                out.append((SIG_LATE, what + "; %s's listening socket was unlinked by the finishing run %s, so %s's probe found nothing" % (
+                    first, thief[0]["ag"], second)))
+            else:
+                out.append((SIG_BOTH, what))
+    for x in ags:
         if r["exit"][x] != 0 and not any(m["ag"] == x for m in markers_of(r)) and per[x]:
             out.append((SIG_LOSER, "%s was refused (exit %d, executed nothing) but left a history record %s" % (x, r["exit"][x], per[x])))
     return out
 
 
-def probe_position(r, x="B", o="A"):
-    """where x's probe fell in o's life (for the input distribution)"""
-    pc = [e["t"] for e in r["events"] if e["ag"] == x and e["ev"] == "connect"]
-    if not pc:
-        return "no-probe"
-    t = pc[0]
+def probe_position(c, r, x="B", o="A"):
+    """where x's first move (taking the lock, else its probe) fell in o's life, and how x was stopped"""
+    xe = [e for e in r["events"] if e["ag"] == x]
+    fl = [e for e in xe if e["ev"] == "flock"]
+    pc = [e for e in xe if e["ev"] == "connect"]
+    if not fl and not pc:
+        return "no-move"
+    t = (fl or pc)[0]["t"]
+    if fl and fl[0]["res"] != "0":
+        how = "refused-by-lock"
+    elif any(e["ev"] == "response" for e in xe):
+        how = "refused-by-probe"
+    elif any(e["ev"] == "connect" and e["res"] == "0" for e in xe):
+        how = "connected-never-answered(listener closing)"
+    else:
+        how = "passed"
     oe = [e for e in r["events"] if e["ag"] == o]
     def first(ev, n=1):
-        l = [e["t"] for e in oe if e["ev"] == ev]
+        l = [eff_t(c, e) for e in oe if e["ev"] == ev]
         return l[n - 1] if len(l) >= n else None
-    oc, ob, ol, osd = first("connect"), first("bind"), first("listen"), first("unlinkat", 2)
-    if oc is None or t < oc: return "before-first-probe"
-    if ob is None or t < ob: return "window:probe..bind"
-    if ol is None or t < ol: return "window:bind..listen"
-    if osd is None or t < osd:
+    of, oc, ob, ol, ou, osd = first("flock"), first("connect"), first("bind"), first("listen"), first("unlock"), first("unlinkat", 2)
+    o0 = of if of is not None else oc
+    if o0 is None or t < o0: where = "before-first-lock"
+    elif oc is None or t < oc: where = "window:lock..probe"
+    elif ob is None or t < ob: where = "window:probe..bind"
+    elif ol is None or t < ol: where = "window:bind..listen"
+    elif ou is None or t < ou:
         ms = [m for m in markers_of(r) if m["ag"] == o]
         hs = [m["t"] for m in ms if m["step"] == "hx" and m["what"] == "start"]
         he = [m["t"] for m in ms if m["step"] == "hx" and m["what"] == "end"]
         ss = [m["t"] for m in ms if m["step"] != "hx" and m["what"] == "start"]
-        if he and t > he[0]: return "listening:after-handlers(final write/shutdown)"
-        if hs and t > hs[0]: return "listening:handler"
-        if ss and t > ss[0]: return "listening:steps"
-        return "listening:before-first-step"
-    return "after-endpoint-closed"
+        if he and t > he[0]: where = "listening:after-handlers(final write)"
+        elif hs and t > hs[0]: where = "listening:handler"
+        elif ss and t > ss[0]: where = "listening:steps"
+        else: where = "listening:before-first-step"
+    elif osd is None or t < osd: where = "unlocked,endpoint-still-up"
+    else: where = "after-endpoint-closed"
+    return where + " -> " + how
 
 
 def run_harness(binh, cases, par=None):
@@ -258,7 +363,7 @@ def run_harness(binh, cases, par=None):
 def correspond(c, r):
     """model verdict for the recorded interleaving vs what happened; returns (ok, detail)"""
     line, acts = driver_line(c, r)
-    rc, dout, derr = common.run_driver("lock", line + "\n")
+    rc, dout, derr = run_driver_retry("lock", line + "\n")
     if rc != 0:
         return False, "driver failed: " + derr[-500:], None
     d = parse_driver(dout.strip())
@@ -266,7 +371,7 @@ def correspond(c, r):
     if d["st"] != "ok":
         k = int(d["st"].split("@")[1])
         bad.append("the model does not allow recorded action #%d %s:%s" % (k, acts[k][1], acts[k][2]))
-    for ag in ("A", "B"):
+    for ag in agents_of(r):
         o = observed_verdict(c, r, ag)
         m = d["ag"]["a%d" % AG[ag]]
         mcls = m["pc"] if m["pc"] in ("refused", "bindFailed", "done") else "pc:" + m["pc"]
@@ -277,11 +382,12 @@ def correspond(c, r):
 
 def run(chk, replay):
     chk.trusted = common.TRUSTED_COMMON + [
-        "strace's record of connect/unlinkat/bind/listen (entry time stamps order the two processes' calls)",
-        "kernel unix-socket name space modelled as absent / stale / bound(owner, listening)"]
+        "strace's record of flock/close/connect/unlinkat/bind/listen (entry time stamps order the processes' calls)",
+        "kernel unix-socket name space modelled as absent / stale / bound(owner, listening); flock(LOCK_EX|LOCK_NB) as one holder per file, released by close of the descriptor or death"]
     chk.assumptions = ["one action of the model = one system call (or a run of calls that touch nothing shared)",
                        "a listening agent answers the probe within the client's 3 s timeout (a timeout also refuses)",
-                       "history files of different runs are distinct files (C06)"]
+                       "history files of different runs are distinct files (C06)",
+                       "C16_full is for DAG files every agent can open (os.Open of the file the command has just loaded); an agent that cannot open it skips the lock (best effort) and the pinned probe/bind race remains for it (theorem C16_unlocked_still_races)"]
     common.lean_obligations(chk, "BdModel/Props/C16.lean", TIE)
     binp, out = common.build_real_binary()
     if not binp:
@@ -299,8 +405,8 @@ def run(chk, replay):
         results = run_harness(binh, cases)
     except Exception as e:
         chk.oblige("harness-run:lock", False, str(e)); return
-    dis, pos, outcome, errs = 0, {}, {}, 0
-    witness_both = False
+    dis, pos, outcome, errs, stale = 0, {}, {}, 0, 0
+    witness_both = witness_late = False
     for c, r in zip(cases, results):
         tries = 0
         while r.get("err") and tries < 2:     # a harness-side timeout: run the case again alone
@@ -325,12 +431,17 @@ def run(chk, replay):
             dis += 1; chk.disagreements += 1
             if dis <= 3:
                 chk.oblige("correspondence:lock:%s" % c["id"], False, detail + " case=" + json.dumps(c))
+        stale += sum(1 for h in r["hist"] if h["status"] == 1 and h["nodes"] and all(n == 4 for n in h["nodes"]))
         vs = monitor(chk, c, r)
         for sig, what in vs:
             chk.violation(sig, what + " [%s second %s, phase %s]" % (c["id"], c["kind"], c["phase"]), c)
-        pp = probe_position(r)
+        pp = probe_position(c, r)
         pos[pp] = pos.get(pp, 0) + 1
-        oc = "%s/%s" % (observed_verdict(c, r, "A")["cls"], observed_verdict(c, r, "B")["cls"])
+        oc = "/".join(observed_verdict(c, r, a)["cls"] for a in agents_of(r))
+        if any(s == SIG_LATE for s, _ in vs):
+            oc += "+overlap(endpoint removed by finishing run)"
+            if c.get("tag") == "late-remove":
+                witness_late = True
         if any(s == SIG_BOTH for s, _ in vs):
             oc += "+overlap"
             if c.get("tag") == "witness":
@@ -344,12 +455,9 @@ def run(chk, replay):
     chk.disagreements_checked = chk.disagreements
     if dis == 0 and errs == 0:
         chk.oblige("correspondence:lock (model verdict for the recorded interleaving = real outcome, every case)", True)
-    if not replay:
-        # the refutation witness of C16_full must be reproducible on the implementation (else C16_full_refuted would be about the model only)
-        chk.oblige("witness-replay:C16_full_refuted (wTrace forced with strace delays: both processes run)", witness_both,
-                   "the injected interleaving did not make both processes run")
-    chk.stats = {"cases": len(cases), "second_probe_position": pos, "outcomes(A/B)": outcome}
+    chk.stats = {"cases": len(cases), "second_move_position": pos, "outcomes(A/B[/C])": outcome,
+                 "stale_final_status(last record says running, every node finished; C08's subject)": stale}
     chk.rule = ("second start / retry launched at PRNG instants of the first run's life (before its socket listens, during each step, "
                 "during the exit handler, through shutdown, after the end) + simultaneous starts (natural, and with strace delays that "
-                "force the model's witness interleaving); both processes under strace; non-trivial = second command issued while the "
+                "force the model's witness interleavings, incl. a three-process one: finishing run / next run / third start); all processes under strace; non-trivial = second command issued while the "
                 "first process is alive; distinct = (kind, phase, probe position, outcome, 10 ms bucket of the instant)")
